@@ -25,6 +25,7 @@ func init() {
 			"Round 4: R7 also for a Running job without a recorded pid (search with known facts through the shared else-if block) and with the state assumed Queued (edges contradicting the assumption pruned); R3 the uniquifier of a reset attempt is computed from, compared with, or independent of the previous one (not a pure function of pid and seconds). " +
 			"Round 5: R6b node states are derived only after every node has loaded its metadata; R9 the metadata archive gets its final name by a rename after it was written completely; R3b a full stage reset stores new uniquifiers. " +
 			"Round 6: R10 (= X8) chunk directories are named alike by doChunks and updateId; R7b an orphaned local node found Running at re-attach is reset on every path. " +
+			"Round 7: R11 extracted metadata files are renamed into place when complete; R3c (= J8) the uniquifier generator orders attempts. " +
 			"NOT decided: equality of final outputs with an uninterrupted run, behaviour at each individual crash prefix, PID reuse.",
 		Assumptions: commonAssumptions,
 	}
@@ -42,6 +43,7 @@ func runC05(c *an.Ctx) {
 	ruleR3b(c)
 	ruleChunkWidth(c, "R10")
 	ruleOrphanReset(c, "R7b")
+	ruleUniqOrder(c, "R3c")
 	ruleR7(c)
 	ruleR7Assume(c)
 }
@@ -1001,9 +1003,20 @@ func ruleR6b(c *an.Ctx) {
 // Rule: in util.CreateZip every path to a return that may carry a nil error passes an os.Rename
 // whose destination is the zip path parameter (write to a temporary name, rename when complete).
 func ruleR9(c *an.Ctx) {
-	fn := c.P.Func(pkgUtil, "CreateZip")
+	ruleRenamedWhenComplete(c, "R9", "CreateZip", "archive-renamed-into-place-when-complete@CreateZip",
+		"CreateZip can return success without having renamed a completed temporary file to the archive's final name: the archive is written in place, and a kill while it is being written leaves an invalid _metadata.zip that makes every re-attach fail; ")
+	// R11 (round 7): the same for every metadata file that a re-attach extracts from the archive:
+	// unzip skips names that already exist ("ignore existing"), so a name must only ever appear
+	// with its complete content - a kill between creating the file and writing it left an empty
+	// _outs that the next restart kept, and the archive was then deleted.
+	ruleRenamedWhenComplete(c, "R11", "unzipFile", "extracted-file-renamed-into-place-when-complete@unzipFile",
+		"unzipFile can return success without having renamed a completed temporary file to the entry's final name: the file is created under its final name and filled afterwards; mrp killed in between leaves an empty metadata file which the next re-attach takes for already extracted (existing names are skipped) before it deletes the archive; ")
+}
+
+func ruleRenamedWhenComplete(c *an.Ctx, rule, fname, key, detail string) {
+	fn := c.P.Func(pkgUtil, fname)
 	if fn == nil || len(fn.Params) == 0 {
-		c.Info("R9", "anchor(util.CreateZip)", 0, "not found: not decided")
+		c.Info(rule, "anchor(util."+fname+")", 0, "not found: not decided")
 		return
 	}
 	dest := ssa.Value(fn.Params[0])
@@ -1037,10 +1050,15 @@ func ruleR9(c *an.Ctx) {
 			if cl, ok := v.(*ssa.Call); ok && isRename(cl) {
 				return false
 			}
+			// a freshly built error value (&os.PathError{...}) is a failing return
+			if mi, ok := v.(*ssa.MakeInterface); ok {
+				if _, isAlloc := mi.X.(*ssa.Alloc); isAlloc {
+					return false
+				}
+			}
 			return true
 		}}.Find()
-	c.Check("R9", "archive-renamed-into-place-when-complete@CreateZip", fn.Pos(), w == nil,
-		"CreateZip can return success without having renamed a completed temporary file to the archive's final name: the archive is written in place, and a kill while it is being written leaves an invalid _metadata.zip that makes every re-attach fail; "+c.WitnessString(w))
+	c.Check(rule, key, fn.Pos(), w == nil, detail+c.WitnessString(w))
 }
 
 // R3b: a full stage reset starts the new attempt under a new uniquifier.  Under FullStageReset
